@@ -130,37 +130,69 @@ theorem findParamLen_le (s : Bytes) (seg : Seg) : findParamLen s seg ≤ s.lengt
             · exact indexOf_le s _ k hk
           · exact Nat.le_refl _
 
+theorem indexOf_singleton : (s : Bytes) → (c : Nat) → indexOf s [c] = indexByte s c
+  | [], c => by simp [indexOf, indexByte]
+  | x :: xs, c => by
+    unfold indexOf indexByte
+    rw [indexOf_singleton xs c]
+    by_cases h : x = c
+    · subst h; simp
+    · have h1 : (x == c) = false := beq_eq_false_iff_ne.mpr h
+      have h2 : (c == x) = false := beq_eq_false_iff_ne.mpr (Ne.symm h)
+      simp only [List.isPrefixOf, h2, Bool.false_and, Bool.false_eq_true, if_false, h1]
+
+theorem fullConst_fields {s : Bytes} {seg seg' : Seg} {following : List Seg}
+    (h : fullConst s seg following = some seg') :
+    seg'.isLast = seg.isLast ∧ seg'.length = seg.length ∧ seg'.isGreedy = seg.isGreedy ∧
+    seg'.isOptional = seg.isOptional ∧ seg'.isParam = seg.isParam ∧ seg'.constraints = seg.constraints := by
+  unfold fullConst at h
+  split at h
+  · cases h
+  · split at h
+    · split at h
+      · cases h; exact ⟨rfl, rfl, rfl, rfl, rfl, rfl⟩
+      · cases h
+    · cases h
+
+theorem paramLen_le (s : Bytes) (seg : Seg) (following : List Seg) : paramLen s seg following ≤ s.length := by
+  unfold paramLen
+  split
+  · exact findParamLen_le s seg
+  · split
+    · unfold findGreedyParamLen; exact findGreedyLoop_le _ _ _ _
+    · exact findParamLen_le s _
+
 /-! ### one step of `getMatch` -/
 
-/-- A parameter segment at the head: the value is the first `findParamLen det seg` bytes of the
+/-- A parameter segment at the head: the value is the first `paramLen det seg rest` bytes of the
     user path, required parameters are non-empty, constraints hold unless optional-and-empty, and
     matching continues behind the value. -/
 theorem getMatch_param_step {chk : Constraint → Bytes → Bool} {seg : Seg} {rest : List Seg}
     {det path : Bytes} {pc : Bool} {vs : List Bytes}
     (h : getMatch chk (seg :: rest) det path pc = some vs) (hp : seg.isParam = true) :
-    ∃ vs', vs = path.take (findParamLen det seg) :: vs' ∧
-      (seg.isOptional = true ∨ findParamLen det seg ≠ 0) ∧
-      (¬ (seg.isOptional = true ∧ findParamLen det seg = 0) →
-          seg.constraints.all (chk · (path.take (findParamLen det seg))) = true) ∧
-      getMatch chk rest (det.drop (findParamLen det seg)) (path.drop (findParamLen det seg)) pc = some vs' := by
+    ∃ vs', vs = path.take (paramLen det seg rest) :: vs' ∧
+      (seg.isOptional = true ∨ paramLen det seg rest ≠ 0) ∧
+      (¬ (seg.isOptional = true ∧ paramLen det seg rest = 0) →
+          seg.constraints.all (chk · (path.take (paramLen det seg rest))) = true) ∧
+      getMatch chk rest (det.drop (paramLen det seg rest)) (path.drop (paramLen det seg rest)) pc = some vs' := by
   unfold getMatch at h
   simp only [hp, Bool.not_true, Bool.false_eq_true, if_false] at h
-  have hle := findParamLen_le det seg
+  have hle := paramLen_le det seg rest
   split at h
   · cases h
   · rename_i h1
     split at h
     · cases h
     · rename_i h2
-      have hrec : (if det.length > 0 then getMatch chk rest (det.drop (findParamLen det seg)) (path.drop (findParamLen det seg)) pc
+      have hrec : (if det.length > 0 then getMatch chk rest (det.drop (paramLen det seg rest)) (path.drop (paramLen det seg rest)) pc
                    else getMatch chk rest det path pc) =
-                  getMatch chk rest (det.drop (findParamLen det seg)) (path.drop (findParamLen det seg)) pc := by
+                  getMatch chk rest (det.drop (paramLen det seg rest)) (path.drop (paramLen det seg rest)) pc := by
         split
         · rfl
-        · have : findParamLen det seg = 0 := by omega
+        · have : paramLen det seg rest = 0 := by omega
           rw [this]; simp
       rw [hrec] at h
-      cases hr : getMatch chk rest (det.drop (findParamLen det seg)) (path.drop (findParamLen det seg)) pc with
+      cases hr : getMatch chk rest (det.drop (paramLen det seg rest)) (path.drop (paramLen det seg rest)) pc with
       | none => simp [hr] at h
       | some vs' =>
         simp only [hr, Option.map_some, Option.some.injEq] at h
@@ -172,7 +204,7 @@ theorem getMatch_param_step {chk : Constraint → Bytes → Bool} {seg : Seg} {r
         · intro hne
           simp only [Bool.and_eq_true, Bool.not_eq_true', beq_iff_eq, not_and, Bool.not_eq_false,
             Bool.not_eq_eq_eq_not, Bool.not_true, Bool.and_eq_false_imp] at h2
-          cases hall : seg.constraints.all (chk · (path.take (findParamLen det seg)))
+          cases hall : seg.constraints.all (chk · (path.take (paramLen det seg rest)))
           · exfalso
             apply hne
             have := h2
